@@ -499,10 +499,10 @@ func c03RunAccessors(body []byte, depth int) explore.Result {
 
 func init() {
 	explore.Register(&explore.Check{
-		ID:        "C03",
-		Level:     "model_checking",
-		Technique: "exhaustive enumeration of cut positions (deviation = one cut) over a corpus of client byte streams on a real server (differential against the un-cut delivery), of surplus-carrying messages followed by a probe, and explicit-state enumeration of message bodies x accessor sequences on buffer.Reader against an independent cursor model",
-		Rule:      "segmentation: streams = startup + every history of <= 3 letters over 12 letters (incl. surplus-carrying, oversized, COPY, truncated); read sizes 1/2/3, every single cut, every double cut (all pairs for streams <= 64 bytes, else within +-6 bytes of a message boundary), thorough: triple cuts inside every header; isolation: 12 surplus variants x prefixes of <= 1 letter; accessors: all bodies of length <= 5 over {00,01,'a',FF} x all accessor sequences of length <= 4 (thorough 5) over 8 accessors",
+		ID:          "C03",
+		Level:       "model_checking",
+		Technique:   "exhaustive enumeration of cut positions (deviation = one cut) over a corpus of client byte streams on a real server (differential against the un-cut delivery), of surplus-carrying messages followed by a probe, and explicit-state enumeration of message bodies x accessor sequences on buffer.Reader against an independent cursor model",
+		Rule:        "segmentation: streams = startup + every history of <= 3 letters over 12 letters (incl. surplus-carrying, oversized, COPY, truncated); read sizes 1/2/3, every single cut, every double cut (all pairs for streams <= 64 bytes, else within +-6 bytes of a message boundary), thorough: triple cuts inside every header; isolation: 12 surplus variants x prefixes of <= 1 letter; accessors: all bodies of length <= 5 over {00,01,'a',FF} x all accessor sequences of length <= 4 (thorough 5) over 8 accessors",
 		Assumptions: []string{"accessor results after the first error and negative sizes are outside the quantifier", "a surplus-carrying message may be rejected by closing the connection (nothing can leak then)"},
 		Enumerate:   c03Enumerate,
 		Bounds: func(tier string) map[string]any {
